@@ -50,8 +50,8 @@ func marshalValue(self Value, span errors.Span, isInner bool, executor Executor)
 			if err != nil {
 				return nil, false, err
 			}
-			// skip builtin functions
-			if marshaled != nil && !skipNull {
+			// skip builtin functions, keep `null` / `none` fields (like the elements of a list)
+			if !skipNull {
 				output[key] = marshaled
 			}
 		}
@@ -67,8 +67,8 @@ func marshalValue(self Value, span errors.Span, isInner bool, executor Executor)
 			if err != nil {
 				return nil, false, err
 			}
-			// skip builtin functions
-			if marshaled != nil && !skipNull {
+			// skip builtin functions, keep `null` / `none` fields (like the elements of a list)
+			if !skipNull {
 				output[key] = marshaled
 			}
 		}
